@@ -35,6 +35,36 @@ func ebnf(n node) string {
 	}
 }
 
+// startsWithNegation reports whether the EBNF text of n starts with "~".
+func startsWithNegation(n node) bool {
+	switch n := n.(type) {
+	case *negation:
+		return true
+	case *group:
+		return startsWithNegation(n.expr)
+	case *capture:
+		return startsWithNegation(n.node)
+	case *sequence:
+		return n.next == nil && startsWithNegation(n.node)
+	}
+	return false
+}
+
+// endsWithModifier reports whether the EBNF text of n ends with a modifier (!, ?, * or +).
+func endsWithModifier(n node) bool {
+	switch n := n.(type) {
+	case *group:
+		return n.mode != groupMatchOnce || endsWithModifier(n.expr)
+	case *negation:
+		return endsWithModifier(n.node)
+	case *capture:
+		return endsWithModifier(n.node)
+	case *sequence:
+		return n.next == nil && endsWithModifier(n.node)
+	}
+	return false
+}
+
 func buildEBNF(root bool, n node, seen map[node]bool, p *ebnfp, outp *[]*ebnfp) {
 	switch n := n.(type) {
 	case *disjunction:
@@ -113,20 +143,30 @@ func buildEBNF(root bool, n node, seen map[node]bool, p *ebnfp, outp *[]*ebnfp) 
 
 	case *negation:
 		p.out += "~"
-		buildEBNF(false, n.node, seen, p, outp)
+		if startsWithNegation(n.node) {
+			// ~~x is not EBNF: ~(~x).
+			p.out += "("
+			buildEBNF(false, n.node, seen, p, outp)
+			p.out += ")"
+		} else {
+			buildEBNF(false, n.node, seen, p, outp)
+		}
 
 	case *literal:
 		p.out += fmt.Sprintf("%q", n.s)
 
 	case *group:
-		if child, ok := n.expr.(*group); ok && child.mode == groupMatchOnce {
+		inner := n.expr
+		if child, ok := inner.(*capture); ok {
+			inner = child.node
+		}
+		if child, ok := inner.(*group); ok && child.mode == groupMatchOnce {
 			buildEBNF(false, child.expr, seen, p, outp)
-		} else if child, ok := n.expr.(*capture); ok {
-			if grandchild, ok := child.node.(*group); ok && grandchild.mode == groupMatchOnce {
-				buildEBNF(false, grandchild.expr, seen, p, outp)
-			} else {
-				buildEBNF(false, n.expr, seen, p, outp)
-			}
+		} else if n.mode != groupMatchOnce && endsWithModifier(inner) {
+			// A modifier applied to an already modified term needs parentheses: (x+)? not x+?.
+			p.out += "("
+			buildEBNF(false, inner, seen, p, outp)
+			p.out += ")"
 		} else {
 			buildEBNF(false, n.expr, seen, p, outp)
 		}
